@@ -1181,7 +1181,7 @@ func raceL1(t *testing.T) (res raceResult) {
 		}
 		done := make(chan ans, 1)
 		go func() { l, ok := lim.Acquire(ctx); done <- ans{l, ok} }()
-		time.Sleep(300 * time.Millisecond) // the waiter is asleep
+		time.Sleep(500 * time.Millisecond) // the waiter is asleep
 		pl.mu.Lock()
 		pl.park = true
 		pl.mu.Unlock()
